@@ -6,6 +6,10 @@ C18  Matcher.match_symbol / is_complete / valid_next_symbols  versus Brzozowski-
      level / encoder / test-case patterns over the data-unit names.
 C19  make_matching_sequence versus an own breadth-first reference search over
      (position in the required list, derivative state of every pattern, consecutive-insertion count).
+     Domains: small enumerated pattern trees, seeded samples, the live combinations, and the 'two alternatives'
+     family  pre ((X) | (Y))u suf  (X, Y concatenations of length 1..4 that each admit the required list, so that
+     insertions are needed before, between and after the required symbols and the depth limit decides which
+     alternative is reachable) -- see alt_family_blocks().
 
 Oracles.  The reference semantics below (terms, nullable, derivative, viability search) is written
 from the property statement and never calls, parses with, or copies the code under check.  Pattern
@@ -842,8 +846,16 @@ def _c18_task(args):
                 failing_patterns={k: sorted(v) for k, v in failing_patterns.items()}, npatterns=len(patterns))
 
 
-def _pool():
-    return multiprocessing.get_context("fork").Pool(min(16, os.cpu_count() or 1))
+C19_QUICK_WORKERS = 6  # the quick C19 run is budgeted for at most 6 worker processes
+
+
+def _pool(cap=None):
+    """Worker pool; at most `cap` processes (default 16); VERIF_BOUNDED_WORKERS lowers the number further."""
+    n = min(cap or 16, os.cpu_count() or 1)
+    env = os.environ.get("VERIF_BOUNDED_WORKERS")
+    if env and env.isdigit() and int(env) > 0:
+        n = min(n, int(env))
+    return multiprocessing.get_context("fork").Pool(n)
 
 
 def _pmap(pool, fn, tasks, tier):
@@ -1249,7 +1261,34 @@ def c19_case(required, patterns, symbol_priority, depth_limit, counter, stats):
     return rec
 
 
+def _reserve_frame_stack_then_call(fn, arg):
+    return fn(arg)
+
+
+def _make_frame_stack_reserver():
+    """PERFORMANCE ONLY, no influence on any result.  CPython >= 3.11 keeps interpreter frames in 16 KiB chunks that are
+    mmap'ed when a call crosses the end of the current chunk and munmap'ed as soon as that call returns; the recursive
+    copy.deepcopy of the matchers inside make_matching_sequence crosses such a boundary again and again (tens of
+    mmap/munmap pairs per call, and munmap is slow on the evaluation VM: more system time than user time).  Calling the
+    worker through a function whose code object declares a very large evaluation stack makes the interpreter allocate ONE
+    large chunk (4 MiB of address space, untouched pages are never faulted in) in which all nested frames then live."""
+    try:
+        import types
+
+        code = _reserve_frame_stack_then_call.__code__.replace(co_stacksize=(1 << 18) + 4096)
+        return types.FunctionType(code, globals(), "_reserve_frame_stack_then_call")
+    except Exception:  # other interpreter / other code-object layout: plain call, only slower
+        return _reserve_frame_stack_then_call
+
+
+_RESERVED_CALL = _make_frame_stack_reserver()
+
+
 def _c19_task(cases):
+    return _RESERVED_CALL(_c19_task_body, cases)
+
+
+def _c19_task_body(cases):
     counter = [0]
     stats = {"shorter_only_beyond_limit": 0}
     by_key, samples, fp = {}, {}, {}
@@ -1303,12 +1342,217 @@ def _feasible(required, patterns):
     return ref_min_len(required, [SemCorrect(t) for t in trees], sorted(names | set(required)) + [WILDCARD], None) is not None
 
 
+# ---- C19: the 'two alternatives' family ---------------------------------------------------------------
+# Patterns  W(X | Y)  where X and Y are plain concatenations (words over a small alphabet, '.' = wildcard) that
+# each ADMIT the required list (the list is a subsequence of the word when '.' stands for any symbol), so each
+# alternative on its own is a completion of the required list: insertions are needed BEFORE, BETWEEN and AFTER
+# the required symbols, the two alternatives differ in total length and in where the insertions go, and the
+# depth limit decides which of them (none, the longer only, the shorter only, both) is reachable.  W is nothing,
+# a common prefix / suffix, or one level of grouping under ? or *.  Oracle: ref_min_len / property_verdict above.
+
+
+def _words(alpha, lo, hi):
+    return [w for n in range(lo, hi + 1) for w in itertools.product(alpha, repeat=n)]
+
+
+def _admits(word, req):
+    """req is a subsequence of word when '.' in the word matches any symbol (leftmost matching is complete for this)."""
+    i = 0
+    for x in word:
+        if i < len(req) and (x == req[i] or x == WILDCARD):
+            i += 1
+    return i == len(req)
+
+
+def _leaves(word):
+    return [("any",) if x == WILDCARD else ("sym", x) for x in word]
+
+
+def _cat_chain(items):
+    t = items[-1]
+    for x in reversed(items[:-1]):
+        t = ("cat", x, t)
+    return t
+
+
+# (prefix word, unary operator or None, suffix word)
+ALT_WRAPPERS = (
+    ("a", None, ""), (".", None, ""), ("", None, "c"), ("", None, "."), ("c", None, "a"),
+    ("", "opt", ""), ("", "star", ""), ("a", "star", "c"), (".", "opt", "."),
+)
+ALT_NO_WRAPPER = ("", None, "")
+
+# second patterns for the pattern-PAIR blocks (each constrains length, first/last symbol, alphabet or the place of b)
+ALT_SECOND_PATTERNS = (".*", ". . .+", ". . . .+", ".* a", "c .*", "(a | b)*", ".* b .", "(. b .?) | (. . b)")
+
+_ALT_RENDER = {}
+
+
+def alt_pattern(x, y, wrapper=ALT_NO_WRAPPER):
+    """Pattern string for  prefix (X | Y)<unary> suffix , rendered from an own tree with flat chains and every
+    concatenation inside the alternation parenthesised; checked to be read back by the own parser as the same language."""
+    key = (x, y, wrapper)
+    s = _ALT_RENDER.get(key)
+    if s is None:
+        pre, un, suf = wrapper
+        core = ("alt", _cat_chain(_leaves(x)), _cat_chain(_leaves(y)))
+        if un is not None:
+            core = (un, core)
+        t = _cat_chain(_leaves(pre) + [core] + _leaves(suf))
+        s = render_flat(t)
+        if to_term(own_parse(s)) != to_term(t):
+            raise RuntimeError("own renderer/parser disagree on %r" % (s,))
+        _ALT_RENDER[key] = s
+    return s
+
+
+def _one_b_words(fillers, maxlen):
+    """p b s with p, s over the filler alphabet, total length <= maxlen."""
+    return [w for w in _words(tuple(fillers) + ("b",), 1, maxlen) if w.count("b") == 1]
+
+
+def alt_family_blocks(tier, rng):
+    """[(name, domain text, exhaustive, cases)] -- every case is (required, patterns, symbol_priority, depth_limit)."""
+    P0, P1 = (), ("c", "b")
+    both = (P0, P1)
+    thorough = tier != "quick"
+    blocks = []
+    seen = set()
+
+    def emit(cases, req, pats, combos):
+        for (pr, dl) in combos:
+            c = (tuple(req), tuple(pats), pr, dl)
+            if c not in seen:
+                seen.add(c)
+                cases.append(c)
+
+    def grid(prios, dls):
+        return [(pr, dl) for pr in prios for dl in dls]
+
+    def show(combos):
+        return "(symbol_priority, depth_limit) in %s" % [(list(p), d) for (p, d) in sorted(set(combos))]
+
+    def pairs(ws):
+        return list(itertools.combinations(ws, 2))
+
+    # A. one required symbol, no wildcard
+    cases = []
+    ws = [w for w in _words("abc", 1, 4) if "b" in w]
+    pa = pairs(ws)
+    combos = grid(both, (0, 1, 2, 3, 4)) if thorough else grid((P0,), (0, 1, 2, 3)) + grid((P1,), (1, 2, 3))
+    for (x, y) in pa:
+        emit(cases, ("b",), (alt_pattern(x, y),), combos)
+    blocks.append(("C19-alt-one-required-symbol",
+                   "EXHAUSTIVE: required [b]; pattern (X) | (Y) for every unordered pair X != Y of words of length 1..4 over {a, b, c} that contain b "
+                   "[%d words, %d pairs]; %s" % (len(ws), len(pa), show(combos)), True, cases))
+
+    # B. one required symbol, wildcards (also in place of the required symbol)
+    cases = []
+    ws = [w for w in _words("abc.", 1, 3) if _admits(w, ("b",))]
+    pa = pairs(ws)
+    combos = grid(both, (1, 2, 3))
+    for (x, y) in pa:
+        emit(cases, ("b",), (alt_pattern(x, y),), combos)
+    ws4 = _one_b_words("ac.", 4)
+    pa4 = [(x, y) for (x, y) in pairs(ws4) if WILDCARD in x + y]
+    combos4 = grid(both, (1, 2, 3)) if thorough else [(P0, 3), (P1, 2)]
+    for (x, y) in pa4:
+        emit(cases, ("b",), (alt_pattern(x, y),), combos4)
+    blocks.append(("C19-alt-one-required-symbol-wildcards",
+                   "EXHAUSTIVE: required [b]; pattern (X) | (Y) for (i) every unordered pair X != Y of words of length 1..3 over {a, b, c, '.'} that admit [b] "
+                   "(contain b or a wildcard) [%d words, %d pairs]; %s; (ii) every unordered pair of words p b s, p and s over {a, c, '.'}, |p| + |s| <= 3, with at least one "
+                   "wildcard in the pair [%d words, %d pairs]; %s" % (len(ws), len(pa), show(combos), len(ws4), len(pa4), show(combos4)), True, cases))
+
+    # C. two required symbols
+    cases = []
+    parts = []
+    req_specs = [(("b", "b"), both, True), (("b", "a"), both, True), (("a", "b"), both if thorough else (P0,), thorough), (("b", "c"), both if thorough else (P0,), thorough)]
+    for req, prios, with_wild in req_specs:
+        combos = grid(prios, (1, 2, 3))
+        ws = [w for w in _words("abc", 2, 4) if _admits(w, req)]
+        pa = pairs(ws)
+        for (x, y) in pa:
+            emit(cases, req, (alt_pattern(x, y),), combos)
+        txt = "required %s: words of length 2..4 over {a, b, c} admitting it [%d words, %d pairs]" % (list(req), len(ws), len(pa))
+        if with_wild:
+            ws = [w for w in _words("abc.", 2, 3) if _admits(w, req)]
+            pa = pairs(ws)
+            for (x, y) in pa:
+                emit(cases, req, (alt_pattern(x, y),), combos)
+            txt += " and words of length 2..3 over {a, b, c, '.'} admitting it [%d words, %d pairs]" % (len(ws), len(pa))
+        parts.append(txt + ", " + show(combos))
+    blocks.append(("C19-alt-two-required-symbols", "EXHAUSTIVE: pattern (X) | (Y) for every unordered pair X != Y; " + "; ".join(parts), True, cases))
+
+    # D. common prefix / suffix, one level of ? or *
+    cases = []
+    ws = _one_b_words("ac", 4)
+    pa = [(x, y) for (x, y) in pairs(ws) if thorough or len(x) != len(y)]
+    dls = (1, 2, 3, 4) if thorough else (2, 3, 4)
+    for w in ALT_WRAPPERS:
+        for (x, y) in pa:
+            emit(cases, ("b",), (alt_pattern(x, y, w),), grid(both if WILDCARD in w[0] + w[2] else (P0,), dls))
+    for w in ALT_WRAPPERS:
+        if w[1] == "star":
+            for (x, y) in pa:
+                emit(cases, ("b", "b"), (alt_pattern(x, y, w),), grid((P0,), dls))
+    blocks.append(("C19-alt-prefix-suffix-group",
+                   "EXHAUSTIVE: required [b]; patterns  pre ((X) | (Y))u suf  for every unordered pair X != Y%s of words p b s, p and s over {a, c}, |p| + |s| <= 3 [%d words, %d pairs] "
+                   "x (pre, u, suf) in %s; depth_limit in %s; symbol_priority [] (and [c, b] where pre/suf contain a wildcard); the two starred forms also with required [b, b] "
+                   "(two iterations of the group)" % ("" if thorough else " of DIFFERENT length", len(ws), len(pa), [list(w) for w in ALT_WRAPPERS], list(dls)), True, cases))
+
+    # E. two patterns that must both match
+    cases = []
+    ws = _one_b_words("ac", 3)
+    pa = pairs(ws)
+    combos = grid(both, (1, 2, 3))
+    for q in ALT_SECOND_PATTERNS:
+        for (x, y) in pa:
+            p = alt_pattern(x, y)
+            emit(cases, ("b",), (p, q), combos)
+            emit(cases, ("b",), (q, p), combos)
+    blocks.append(("C19-alt-pattern-pairs",
+                   "EXHAUSTIVE: required [b]; the two patterns ((X) | (Y), Q) and (Q, (X) | (Y)) for every unordered pair X != Y of words p b s, p and s over {a, c}, |p| + |s| <= 2 "
+                   "[%d words, %d pairs] x Q in %s; %s" % (len(ws), len(pa), list(ALT_SECOND_PATTERNS), show(combos)), True, cases))
+
+    # F. seeded sample of the large family
+    cases = []
+    n = 60000 if thorough else 10000
+    big = _words("abc.", 1, 4)
+    reqs = [r for k in (1, 2) for r in itertools.product("abc", repeat=k)]
+    by_req = {r: [w for w in big if _admits(w, r)] for r in reqs}
+    wrappers = (ALT_NO_WRAPPER,) * 3 + ALT_WRAPPERS
+    while len(cases) < n:
+        r = rng.choice(reqs)
+        ws = by_req[r]
+        x, y = rng.choice(ws), rng.choice(ws)
+        if x == y:
+            continue
+        pats = [alt_pattern(x, y, rng.choice(wrappers))]
+        u = rng.random()
+        if u < 0.25:
+            pats.append(rng.choice(ALT_SECOND_PATTERNS))
+        elif u < 0.4:
+            x2, y2 = rng.choice(ws), rng.choice(ws)
+            if x2 != y2:
+                pats.append(alt_pattern(x2, y2, rng.choice(wrappers)))
+        if len(pats) == 2 and rng.random() < 0.5:
+            pats.reverse()
+        emit(cases, r, pats, [(rng.choice(both), rng.choice((0, 1, 2, 3, 3, 4)))])
+    blocks.append(("C19-alt-sampled",
+                   "SAMPLED (not exhaustive; seed-derived): %d cases; required list of length 1..2 over {a, b, c}; X != Y words of length 1..4 over {a, b, c, '.'} admitting it; "
+                   "pattern pre ((X) | (Y))u suf with no wrapper (weight 3) or one of the %d wrappers; with probability 1/4 a second pattern from the list of the pattern-pairs block, "
+                   "with probability 0.15 a second pattern of the same family (either order); depth_limit in {0, 1, 2, 3, 4}; symbol_priority in {[], [c, b]}" % (len(cases), len(ALT_WRAPPERS)),
+                   False, cases))
+    return blocks
+
+
 def check_c19(rep, tier, seed):
     t0 = time.time()
     cpu0 = _children_cpu()
     frontend.ensure_repo_on_path()
     real()
     rng = random.Random(seed * 7919 + 19)
+    rng_alt = random.Random(seed * 104729 + 1919)
     if tier == "quick":
         exh_blocks, samp_size, samp_req, n_single_samples, pair_exh_size, pair_exh_req, n_pair_samples, max_pics = [(3, 3)], 4, 3, 3000, 1, 3, 5000, 3
     else:
@@ -1382,6 +1626,8 @@ def check_c19(rep, tier, seed):
                 for dl in live_limits:
                     cases_live.append((pics, tuple(generic) + (lv,) + extra, prio, dl))
     cases_wit = list(D7_WITNESSES)
+    alt_blocks = alt_family_blocks(tier, rng_alt)
+    clear_caches()
 
     group_wall = {}
 
@@ -1391,7 +1637,7 @@ def check_c19(rep, tier, seed):
         group_wall[len(group_wall)] = round(time.time() - t1, 1)
         return r
 
-    pool = _pool()
+    pool = _pool(C19_QUICK_WORKERS if tier == "quick" else None)
     try:
         tot_w = run(pool, cases_wit, 1)
         tot_live = run(pool, cases_live, 3)
@@ -1399,6 +1645,7 @@ def check_c19(rep, tier, seed):
         tot_ss = run(pool, cases_ssamp, 100)
         tot_p = run(pool, cases_pair, 150)
         tot_ps = run(pool, cases_psamp, 100)
+        tot_alt = [run(pool, cases, 120) for (_, _, _, cases) in alt_blocks]
     finally:
         pool.close()
         pool.join()
@@ -1435,7 +1682,11 @@ def check_c19(rep, tier, seed):
     rep.add_bounded("C19-design-witnesses", "the two D7 witnesses of DESIGN.md section 7, written with explicit parentheses",
                     evaluations=tot_w["evals"], exhaustive=True, distinct=tot_w["cases"],
                     samples=[_case_dict(c) for c in cases_wit], note=note(tot_w))
-    parts = (("witnesses", tot_w), ("live", tot_live), ("single", tot_s), ("single-sampled", tot_ss), ("pairs", tot_p), ("pairs-sampled", tot_ps))
+    for (name, domain, exhaustive, cases), tot in zip(alt_blocks, tot_alt):
+        rep.add_bounded(name, domain, evaluations=tot["evals"], exhaustive=exhaustive, distinct=tot["stats"].get("ok", 0),
+                        samples=[_case_dict(c) for c in cases[:: max(1, len(cases) // 3)][:3]], note=note(tot))
+    parts = (("witnesses", tot_w), ("live", tot_live), ("single", tot_s), ("single-sampled", tot_ss), ("pairs", tot_p), ("pairs-sampled", tot_ps)) + tuple(
+        (name[len("C19-"):], tot) for (name, _, _, _), tot in zip(alt_blocks, tot_alt))
     rep.extra_coverage["C19_failing_cases_by_class"] = {n: t["by_key"] for n, t in parts}
     rep.extra_coverage["C19_distinct_nontrivial_means"] = "calls in which the real function returned a sequence (the rest raised ImpossibleSequenceError)"
     rep.extra_coverage["C19_results_longer_than_a_sequence_needing_more_consecutive_insertions_than_depth_limit"] = sum(
@@ -1504,6 +1755,13 @@ REGISTER = {
             "seed (biased towards cases that have some completion): 3000 / 60000 single patterns of 4 / 5 nodes and 5000 / 60000 ordered pairs of patterns of <= 4 / <= 5 nodes, "
             "lists of length <= 3 / <= 4. Everywhere depth_limit in {1,2,3} and symbol_priority in {[], [c,b]}. Plus the live level x encoder x test-case pattern "
             "combinations with 0..3 / 0..5 identical picture or fragment symbols (depth_limit {1,3} / {1,2,3}) and the two DESIGN.md D7 witnesses",
+            "C19 'two alternatives' family (blocks C19-alt-*; the exact word sets, pair counts and (symbol_priority, depth_limit) grids are stated in each block's domain text): "
+            "patterns pre ((X) | (Y))u suf where X != Y are plain concatenations of length 1..4 over {a, b, c, '.'} that each admit the required list as a subsequence "
+            "('.' standing for any symbol); EXHAUSTIVE over unordered pairs {X, Y} for required [b] (no wildcard: all words with a b; with wildcards: all words of length <= 3 and "
+            "all p b s of length <= 4), for two required symbols ([b,b], [b,a], [a,b], [b,c]; words without wildcard up to length 4, with wildcard up to length 3), with 9 "
+            "prefix/suffix/?/* wrappers (quick: only pairs of different length), and as one of TWO patterns together with 8 fixed second patterns (both orders); only the "
+            "unordered pair is enumerated (X | Y, not also Y | X); a seeded SAMPLE (10000 / 60000) covers the rest of the family (all 12 required lists of length 1..2, "
+            "length-4 words with wildcards, wrappers, two patterns of the family, depth_limit 0..4). Longer alternatives, more than two alternatives and deeper nesting are not covered",
             "'shortest' is judged among the sequences that have an embedding of the required list with at most depth_limit consecutive inserted symbols (the search space the "
             "function documents); results that are longer than some sequence needing MORE consecutive insertions are counted in the evidence but not reported as violations",
             "WILDCARD in a returned sequence is read as 'a symbol named by no pattern' (it must be matched by a '.' in every pattern); the preference among equally "
@@ -1521,7 +1779,9 @@ REGISTER = {
             text="Bounded, not a proof. Exhaustively for single patterns of <= 3 (quick) / <= 4 (thorough) nodes and ordered pattern pairs of <= 1 / <= 2 nodes with all "
                  "required lists of length <= 3 over {a,b,c} (thorough also length 4 for patterns of <= 3 nodes), for a seeded sample of larger single patterns and pairs "
                  "(<= 4 / <= 5 nodes), depth limits 1..3 and two symbol priorities, and for the live level/encoder/test-case pattern combinations with up to 3 / 5 pictures "
-                 "or fragments: a returned list contains the required symbols in order, matches every pattern and is as short as the shortest sequence reachable with at "
+                 "or fragments, and for the 'two alternatives' family (X) | (Y) with X, Y concatenations of length 1..4 over {a, b, c, .} that each contain / admit the one or "
+                 "two required symbols (all unordered pairs in the stated sub-families, depth limits 0..4, optional common prefix/suffix, one level of ? or *, a second pattern): "
+                 "a returned list contains the required symbols in order, matches every pattern and is as short as the shortest sequence reachable with at "
                  "most depth_limit consecutive insertions; ImpossibleSequenceError is raised only if no such sequence exists.",
             note="Level 'other' (bounded, partly sampled). Known defects D7 (greedy commitment) and inherited D4 are recognised only through exact reproduction by "
                  "deliberately defective reference searches.",
